@@ -718,7 +718,7 @@ fn cal_first_after_1() {
     cal_first_after_n::<1>(false)
 }
 
-//@H props=C15,C04 tier=quick kind=bounded cap=1800 bound="3 stored years (the middle one may be empty), argument inside or after the window" domain="all bitmaps of valid dates; argument and query dates within 1 year of the window; window anywhere"
+//@H tier_C04=thorough props=C15,C04 tier=quick kind=bounded cap=1800 bound="3 stored years (the middle one may be empty), argument inside or after the window" domain="all bitmaps of valid dates; argument and query dates within 1 year of the window; window anywhere"
 #[cfg_attr(kani, kani::proof)]
 #[cfg_attr(kani, kani::stub_verified(CompactYear::first_after))]
 #[cfg_attr(kani, kani::stub_verified(CompactYear::first))]
